@@ -1,12 +1,15 @@
 package props
 
 import (
+	"bytes"
 	"encoding/json"
 	"fmt"
 	"go/token"
 	"strings"
 
 	"github.com/dave/dst"
+	"github.com/dave/dst/decorator"
+	"github.com/dave/dst/decorator/resolver/simple"
 
 	"verif/core"
 )
@@ -19,7 +22,7 @@ type c05Case struct {
 	Decs    [6]int `json:"decs"`    // Start1, End1, ... (0 none, 1 line comment, 2 "\n", 3 block comment)
 }
 
-var c05Kinds = []string{"stmt", "decl", "spec", "field", "method", "clause", "arg", "elt", "rawarg", "rawelt", "rawstmt"}
+var c05Kinds = []string{"stmt", "decl", "spec", "field", "method", "clause", "arg", "elt", "rawarg", "rawelt", "rawstmt", "pathelt", "patharg"}
 
 func c05OwnLine(kind string) bool {
 	return kind != "arg" && kind != "elt" && !strings.HasPrefix(kind, "raw")
@@ -132,6 +135,23 @@ func c05Build(kind string) (file *dst.File, elems []dst.Node, open string, texts
 			file.Decls = []dst.Decl{fn(stmts...)}
 			return file, elems, "package p\n\nfunc f() {", texts, ";", "}\n"
 		}
+	case "pathelt", "patharg":
+		// elements that are package-qualified identifiers; printed with import management
+		var list []dst.Expr
+		for _, n := range []string{"V", "K", "W"} {
+			e := &dst.Ident{Name: n, Path: "a.b/x"}
+			list = append(list, e)
+			elems = append(elems, e)
+			texts = append(texts, "x."+n)
+		}
+		if kind == "pathelt" {
+			cl := &dst.CompositeLit{Type: &dst.ArrayType{Elt: id("int")}, Elts: list}
+			file.Decls = []dst.Decl{&dst.GenDecl{Tok: token.VAR, Specs: []dst.Spec{&dst.ValueSpec{Names: []*dst.Ident{id("_")}, Values: []dst.Expr{cl}}}}}
+			return file, elems, "package p\n\nimport \"a.b/x\"\n\nvar _ = []int{", texts, ",", "}\n"
+		}
+		call := &dst.CallExpr{Fun: id("f"), Args: list}
+		file.Decls = []dst.Decl{&dst.GenDecl{Tok: token.VAR, Specs: []dst.Spec{&dst.ValueSpec{Names: []*dst.Ident{id("_")}, Values: []dst.Expr{call}}}}}
+		return file, elems, "package p\n\nimport \"a.b/x\"\n\nvar _ = f(", texts, ",", ")\n"
 	case "arg":
 		call := &dst.CallExpr{Fun: id("f")}
 		for _, n := range names {
@@ -208,7 +228,7 @@ func init() {
 	core.Register(&core.Prop{
 		ID:    "C05",
 		Level: "model_checking",
-		Rule: "11 list kinds (statements, declarations, specs, struct fields, interface methods, case clauses, call arguments, composite elements, and arguments / elements / statements ending in multi-line raw strings that contain empty lines) x all 3^6 None/NewLine/EmptyLine assignments to Before/After of 3 elements " +
+		Rule: "13 list kinds (statements, declarations, specs, struct fields, interface methods, case clauses, call arguments, composite elements, and arguments / elements / statements ending in multi-line raw strings that contain empty lines, and arguments / elements that are package-qualified identifiers printed with import management) x all 3^6 None/NewLine/EmptyLine assignments to Before/After of 3 elements " +
 			"x every assignment of {none, line comment, newline, block comment} to the 6 Start/End points with <=2 (quick) / <=3 (thorough) non-empty, on hand-built trees; " +
 			"oracle: print == gofmt(text rendered by the non-additive line-break ledger) and, for own-line kinds without decorations, one blank line between neighbours iff After or Before is EmptyLine; " +
 			"state = (kind, spacing vector, decoration vector); non-trivial = any spacing/decoration set",
@@ -311,7 +331,15 @@ func c05Check(cs c05Case) core.Outcome {
 		return fail("engine:ledger-text-does-not-parse", "naive text does not parse: %v\n%q", err, raw)
 	}
 	var got string
-	if p := guard(func() { got, err = printFile(file) }); p != "" {
+	printIt := func() (string, error) {
+		if strings.HasPrefix(cs.Kind, "path") {
+			var buf bytes.Buffer
+			err := decorator.NewRestorerWithImports("example.com/p", simple.New(map[string]string{"a.b/x": "x"})).Fprint(&buf, file)
+			return buf.String(), err
+		}
+		return printFile(file)
+	}
+	if p := guard(func() { got, err = printIt() }); p != "" {
 		return fail("panic", "print panicked: %s", p)
 	}
 	if err != nil {
